@@ -258,7 +258,12 @@ def oracleSem (prop : String) (o : Opts) (env : Env) (inN outN : Node) : Verdict
       (fun p => if !(collect (fun x => x.kind == .other "captured") (vKids p.e)).isEmpty
                 then "slots/captured-temporary" else "slots")
   else if prop == "C04" then
-    judge sv vDirs inDom (fun _ => "directives")
+    match judge sv vDirs inDom (fun _ => "directives") with
+    | .ok =>
+      -- v-html / v-text set innerHTML / textContent to the given value: the props of the elements that carry them
+      judge sv vProps (fun p => inDom p && p.d.atoms.contains "has-vhtml-vtext" && !p.d.atoms.contains "has-vmodel")
+        (fun _ => "innerHTML-textContent")
+    | v => v
   else if prop == "C05" then
     judge sv (fun v => S "pd" [] [vProps v, vDirs v]) (fun p => inDom p && p.d.atoms.contains "has-vmodel")
       (fun p => featKey "v-model" p ["vmodel-computed-arg", "vmodel-arg-on-element"])
@@ -411,7 +416,10 @@ end VueJsx
 namespace VueJsx
 
 def oracleC15 (o : Opts) (env : Env) (inN outN : Node) : Verdict :=
-  if o.mergeProps && anyDroppedDuplicate inN then .skip "repeated-non-mergeable-attribute" else
+  -- a repeated non-mergeable key (also one generated by v-model / v-html / v-text) drops an attribute with whatever JSX
+  -- its value held: outside the quantifier
+  let droppedSem := !(collect (fun x => x.kind == .other "vnode" && x.atoms.contains "dropped-duplicate") (denote o env inN)).isEmpty
+  if o.mergeProps && (anyDroppedDuplicate inN || droppedSem) then .skip "repeated-non-mergeable-attribute" else
   let pragma := effectivePragma o env            -- from the SPEC-level comment scan (Text.pragmaOfComment) and the option
   let roles := rolesOfModule outN
   let isJsx (n : Node) : Bool := n.kind == .jsxElement || n.kind == .jsxFragment
@@ -785,8 +793,24 @@ partial def scopeFn (params : List Node) (rest : List Node) (visible : List Stri
   pres.merge (scopeWalkL rest (visible ++ paramBinds))
 end
 
+/-- (name, binding class) of every identifier declared by a variable declarator, a function declaration or an import -/
+def declaredIdents (n : Node) : List (String × String) :=
+  (collect (fun _ => true) n).filterMap fun x =>
+    match x with
+    | .mk .declarator _ (.mk .ident (nm :: b :: _) _ :: _) => some (nm, b)
+    | .mk .fnDecl _ (.mk .ident (nm :: b :: _) _ :: _) => some (nm, b)
+    | .mk .importSpec _ (.mk .ident (nm :: b :: _) _ :: _) => some (nm, b)
+    | .mk .importDefault _ (.mk .ident (nm :: b :: _) _ :: _) => some (nm, b)
+    | _ => none
+
 def oracleC06 (o : Opts) (inN outN : Node) : Verdict :=
   let res := scopeWalk outN []
+  -- every binding the transform ADDS is a fresh identifier: its binding class occurs nowhere in the input
+  let inDecls := declaredIdents inN
+  let notFresh := (declaredIdents outN).find? fun d => !inDecls.contains d && !(d.2.startsWith "g" || d.2.startsWith "G")
+  match notFresh with
+  | some (nm, b) => .fail "inserted-binding-not-fresh" s!"the transform declares {nm} in the binding class {b} of user code (it can capture or collide with a user variable)"
+  | none =>
   match res.errors.head? with
   | some (k, d) => .fail k d
   | none =>
@@ -874,10 +898,13 @@ def oracleC11 (o : Opts) (env : Env) (inN outN : Node) : Verdict :=
   let ps := sv.pairs.filter inDom
   match ps.find? (fun p => !(creationTrace p.d == creationTrace p.e)) with
   | some p =>
-    let key := if !(collect (fun x => x.kind == .other "captured") p.e).isEmpty then "creation-trace/captured-temporary"
-      else match ["vmodel-computed-arg", "vmodel-arg-on-element"].find? (fun f => p.d.atoms.contains f) with
-        | some f => "creation-trace/" ++ f
-        | none => "creation-trace"
+    -- the recorded v-model mechanisms explain a difference on the element that carries them; a captured copy only
+    -- when it occurs in the trace itself
+    let key := match ["vmodel-computed-arg", "vmodel-arg-on-element"].find? (fun f => p.d.atoms.contains f) with
+      | some f => "creation-trace/" ++ f
+      | none =>
+        if (creationTrace p.e).any (fun t => !(collect (fun x => x.kind == .other "captured") t).isEmpty)
+        then "creation-trace/captured-temporary" else "creation-trace"
     .fail key s!"expected {(creationTrace p.d).map showN} got {(creationTrace p.e).map showN}"
   | none =>
     match ps.find? (fun p => vIsComponent p.d && !(slotTrace p.d == slotTrace p.e)) with
@@ -920,7 +947,11 @@ def declPlace (m : Node) (idx : Nat) (bnd : String) : String :=
     | .mk .importDecl _ (.mk .list _ specs :: _) => specs.any fun sp => match sp with | .mk .importSpec _ (.mk .ident (_ :: b :: _) _ :: _) => b == bnd | _ => false
     | .mk .fnDecl _ (.mk .ident (_ :: b :: _) _ :: _) => b == bnd
     | _ => false
-  if items.any direct then "module-level"
+  if items.any direct then
+    -- before or after the statement that uses it (a `let`/`const` after its first use is in its dead zone)
+    (match items.findIdx? direct with
+     | some di => if di < idx then "module-level-before" else "module-level-after"
+     | none => "module-level")
   else if (match items[idx]? with | some s => declaresBind bnd s | none => false) then "inside-the-statement"
   else if items.any (declaresBind bnd) then "inside-another-statement"
   else "nowhere"
@@ -1047,7 +1078,7 @@ partial def bigLitAsNumber (n : Node) : Node :=
   | .mk k as ks => .mk k as (ks.map bigLitAsNumber)
 
 /-- C16 / C17 on one call -/
-def propsJudge (prop : String) (reg regBL : St) (diags : List String) (bigLitInModule : Bool) (v : DcView) : Option (String × String) :=
+def propsJudge (prop : String) (reg regBL : St) (diags : List String) (diagsExplained : Bool) (bigLitInModule : Bool) (v : DcView) : Option (String × String) :=
   match v.propsTy with
   | none => none
   | some ty =>
@@ -1066,7 +1097,7 @@ def propsJudge (prop : String) (reg regBL : St) (diags : List String) (bigLitInM
         if !(sKeys.all (eKeys.contains ·) && eKeys.all (sKeys.contains ·)) then
           some (if !diags.isEmpty && eKeys.length < sKeys.length then "declared-props-missing/with-error" else "declared-props-mismatch",
                 s!"declared {sKeys} emitted {eKeys} (diagnostics {diags})")
-        else if !diags.isEmpty then some ("spurious-error", s!"the type resolves to {sKeys} but an error was reported: {diags}")
+        else if !diags.isEmpty && !diagsExplained then some ("spurious-error", s!"the type resolves to {sKeys} but an error was reported: {diags}")
         else
           -- a key declared several times (intersection / merged interfaces): optional only if every occurrence is
           let dupFree := spec.filter fun p => (spec.filter (fun q => keyText q.key == keyText p.key)).length == 1
@@ -1175,9 +1206,14 @@ def oracleTypes (prop : String) (o : Opts) (inN outN : Node) (diags : List Strin
   let reg := specRegistry inN
   let views := dcViews o inN outN
   if views.isEmpty then .skip "no-defineComponent-call" else
+  -- diagnostics are reported per module: an error is "explained" when SOME call of the module has a props / emits type
+  -- that does not resolve (or lies outside the grammar); it is then not held against the other calls
+  let diagsExplained := views.any fun v =>
+    (match v.propsTy with | some ty => (match propsOfType FUEL reg ty with | .ok _ => false | _ => true) | none => false)
+    || (match v.emitsTy with | some ty => (emitsOfType FUEL reg ty).isNone | none => false)
   let judge (v : DcView) : Option (String × String) :=
     if prop == "C16" || prop == "C17" then
-      propsJudge prop reg (specRegistry (bigLitAsNumber inN)) diags (!(collect (fun x => match x with | .mk .tsLitType _ [.mk .bigint _ _] => true | _ => false) inN).isEmpty) v
+      propsJudge prop reg (specRegistry (bigLitAsNumber inN)) diags diagsExplained (!(collect (fun x => match x with | .mk .tsLitType _ [.mk .bigint _ _] => true | _ => false) inN).isEmpty) v
     else if prop == "C19" then emitsJudge reg diags v
     else defaultsJudge reg v
   match views.findSome? judge with
